@@ -101,19 +101,20 @@ SLICES_QUICK = [
 ]
 
 SLICES_THOROUGH = [
-    ("struct4", 4, 3, ["agg", "task"], ["none", "lab", "le"], ["T", "F", "iteq"], ["none"], ["none"], [], False, ["flag"], ["none"]),
+    SLICES_QUICK[0],
+    ("struct4", 4, 3, ["agg", "task"], ["none", "lab", "le"], ["T", "iteq"], ["none"], ["none"], [], False, ["flag"], ["none"]),
     ("vars3", 3, 2, ["agg", "call"], ["none", "be12", "var"], ["T", "flagon", "itne"], ["none", "flagit"], ["none"], [], False,
-     ["both"], ["none", "flagoff", "lstb"]),
+     ["both"], ["none", "lstb"]),
     ("vars3b", 3, 2, ["task"], ["none", "lab", "var"], ["T", "flagoff", "iteq"], ["none", "flagoff"], ["none"], [], False,
      ["both", "plain"], ["none", "lstbad"]),
     ("ranges", 2, 1, ["task", "agg"], ["lab", "lb", "le", "be12", "be21", "var"], ["T", "F", "iteq", "itne"], ["none", "flagit"], ["none"], [],
      False, ["both", "plain", "lst"], ["none", "lstb", "lstbad", "flagoff"]),
     ("poison4", 4, 3, ["agg", "task"], ["none", "lab"], ["T", "iteq"], ["none"], ["none"], [], True, ["flag"], ["none"]),
-    ("poison3", 3, 2, ["task", "inc"], ["none", "lab", "var"], ["T", "F"], ["none"], ["none"], ["s3", "s4", "smissing"], True,
+    ("poison3", 3, 2, ["task", "inc"], ["none", "lab", "var"], ["T"], ["none"], ["none"], ["s3", "s4", "smissing"], True,
      ["lst"], ["none", "lstbad"]),
-    ("extras3", 3, 2, ["task", "call", "inc"], ["none", "lab", "be21"], ["T"], ["none", "flagoff"],
+    ("extras3", 3, 2, ["task", "call", "inc"], ["none", "lab", "be21"], ["T"], ["none"],
      ["none", "hook", "cons", "chan"], ["s2", "s5"], False, ["flag"], ["none"]),
-    ("incl3", 3, 2, ["agg", "inc"], ["none", "lb"], ["T", "flagon", "iteq"], ["none", "flagit"], ["none"], ["s1", "s2", "s3", "s5"], False,
+    ("incl3", 3, 2, ["agg", "inc"], ["none", "lb"], ["T", "iteq"], ["none", "flagit"], ["none"], ["s1", "s2", "s3", "s5"], False,
      ["flag"], ["none", "flagoff"]),
 ]
 
@@ -147,18 +148,28 @@ def shape_of(T):
 
 
 def parse_race_logs(paths):
-    """Return {(funcA, funcB): count} for the DATA RACE reports in the given log files (top frames of the two accesses)."""
+    """Return {(siteA, siteB): count} for the DATA RACE reports in the given log files; a site is the first frame of an
+    access stack that lies in the repository (function, file:line)."""
     res = {}
     for p in paths:
         with open(p, errors="replace") as fh:
             txt = fh.read()
         for rep in txt.split("WARNING: DATA RACE")[1:]:
-            tops = []
-            for m in re.finditer(r"(?m)^(?:Read|Write|Previous read|Previous write) at .*\n\s+(\S+)\(", rep):
-                f = m.group(1)
-                f = f.replace("github.com/AliceO2Group/Control/", "")
-                tops.append(f)
-            key = tuple(sorted(tops[:2])) if tops else ("?",)
+            sites = []
+            for blk in re.finditer(r"(?m)^(?:Read|Write|Previous read|Previous write) at [^\n]*\n((?:  [^\n]*\n)+)", rep):
+                frames = re.findall(r"  (\S+)\(\)\n\s+(\S+):(\d+)", blk.group(1))
+                pick = None
+                for fn, path, line in frames:
+                    if "AliceO2Group/Control/" in fn and "verif_" not in path:
+                        pick = (fn, path, line)
+                        break
+                if pick is None and frames:
+                    pick = frames[0]
+                if pick:
+                    fn = pick[0].split("AliceO2Group/Control/")[-1]
+                    path = re.sub(r"^.*?/(core|common|configuration|apricot)/", r"\1/", pick[1])
+                    sites.append("%s (%s:%s)" % (fn, path, pick[2]))
+            key = tuple(sorted(sites[:2])) if sites else ("?",)
             res[key] = res.get(key, 0) + 1
     return res
 
@@ -199,9 +210,9 @@ def run(ctx):
         runs = [i for i, (a, args) in enumerate(acts) if a == "Run"]
         if len(runs) < 2:
             raise vlib.Inconclusive("unexpected counterexample shape of WorkflowLoadErr")
-    if not shared:
-        # the aggregator path (goroutine-local err) must be fine in any case
-        pass
+        # replayed as schedule "first:K" (for every K): child K's ProcessTemplates returns first, its siblings' return
+        # next, then child K reads the shared err - imposed with gates on wl.iter.child.start / wl.iter.child.done
+    # the aggregator path (goroutine-local err, racy Append) must be fine in any case
     ctx.model_check("WorkflowLoadErr", None, cfg_text=cfg_err(2, [1, 2], False), workers=min(nw, 4))
 
     # 2. the template family: exhaustive slices + random larger templates
@@ -234,7 +245,7 @@ def run(ctx):
             add_case(st, "slice:" + name)
         ctx.log("slice %s: %d templates" % (name, len(sts)))
         os.remove(os.path.join(r.dir, "states.dump"))
-    nsim = 50 if quick else 400
+    nsim = 50 if quick else 250
     behs = ctx.simulate("WorkflowLoadGen", None, nsim, SIM[0] + 1, cfg_text=cfg_gen(*SIM, invs=False), seed=ctx.seed * 104729 + 17)
     nb = len(cases)
     for b in behs:
@@ -336,7 +347,7 @@ def run(ctx):
         races = parse_race_logs(glob.glob(os.path.join(os.path.dirname(logdir), "r.*")))
         ctx.extra["race_reports"] = {" <-> ".join(k): v for k, v in races.items()}
         for k, v in sorted(races.items(), key=lambda kv: -kv[1]):
-            attributable = any("iteratorRole" in f and "ProcessTemplates" in f for f in k)
+            attributable = any("iteratorRole).ProcessTemplates" in f for f in k)
             ctx.observations.append("go -race: DATA RACE between %s (%d report(s)) in concurrent template processing; %s" % (
                 " and ".join(k), v,
                 "this is the shared `err` / roleErrors of iteratorRole.ProcessTemplates, the cause of finding %s (judged under Determinism / "
